@@ -89,35 +89,34 @@ def r9(run, fx):
                 sorted(flagged))
     run.check(not (flagged & R9_CONTROL_GOOD), rule, "negative-control", "guarded twins of the control crate are not reported",
               "the engine reports guarded code of the control crate: %s" % sorted(flagged & R9_CONTROL_GOOD))
-    eng = intervals.analyse(fx, ("temporal_rs",))
-    from collections import Counter
-    st = Counter(eng.site.values())
-    run.analysed["r9_entry_points"] = eng.stats.get("entry_points", 0)
-    run.analysed["r9_function_contexts"] = eng.stats.get("contexts", 0)
-    run.analysed["r9_functions_analysed"] = eng.stats.get("functions", 0)
+    res = intervals.results(fx)
+    sites = [x for x in res["sites"] if x["kind"] != "narrowing"]
+    st = {0: 0, 1: 0, 2: 0}
+    for x in sites:
+        st[x["status"]] += 1
+    stats = res["stats"]
+    run.analysed["r9_entry_points"] = stats.get("entry_points", 0)
+    run.analysed["r9_function_contexts"] = stats.get("contexts", 0)
+    run.analysed["r9_functions_analysed"] = stats.get("functions", 0)
     run.analysed["r9_sites_proved"] = st[0]
     run.analysed["r9_sites_unresolved_not_reported"] = st[1]
     run.analysed["r9_sites_reported"] = st[2]
-    run.analysed["r9_possible_but_inexact_not_reported"] = eng.stats.get("inexact_possible", 0)
-    if eng.stats.get("entry_points", 0) < 700 or len(eng.site) < 350:
+    run.analysed["r9_possible_but_inexact_not_reported"] = stats.get("inexact_possible", 0)
+    run.analysed["r9_monotone_kernel_folds"] = stats.get("monotone_folds", 0)
+    if stats.get("entry_points", 0) < 700 or len(sites) < 350:
         run.anchor_missing(rule, "coverage", "only %d entry points / %d arithmetic sites analysed (expected >= 700 / >= 350)" %
-                           (eng.stats.get("entry_points", 0), len(eng.site)))
+                           (stats.get("entry_points", 0), len(sites)))
     # stable keys: <function>/<kind>#<ordinal among the sites of that kind in the function, in block order>
-    per_fn = {}
-    for (p, k) in sorted(eng.site, key=lambda x: (x[0], x[1][0], x[1][1])):
-        per_fn.setdefault((p, k[0]), []).append(k[1])
-    for (p, k), status in sorted(eng.site.items(), key=lambda x: (x[0][0], x[0][1][0], x[0][1][1])):
-        ordinal = per_fn[(p, k[0])].index(k[1]) + 1
-        key = "%s/%s#%d" % (p.replace("temporal_rs::", ""), k[0], ordinal)
-        f = eng.fns[p]
-        if status == 2:
-            a = eng.alarms[(p, k)]
-            chain = " > ".join(x.replace("temporal_rs::", "").replace("builtins::core::", "") for x in a[4])
-            run.bad(rule, key, "%s  [reached through: %s]" % (a[1], chain), "%s:%s" % (f.file, a[2]))
-        elif status == 0:
-            run.ok(rule, key, "proved inside its type for every caller-controlled input", f.loc)
+    for x in sites:
+        key = "%s/%s#%d" % (x["fn"].replace("temporal_rs::", ""), x["kind"], x["ordinal"])
+        loc = "%s:%s" % (x["file"], x["line"] or x["fn_line"])
+        if x["status"] == 2:
+            chain = " > ".join(c.replace("temporal_rs::", "").replace("builtins::core::", "") for c in x["chain"])
+            run.bad(rule, key, "%s  [reached through: %s]" % (x["text"], chain), loc)
+        elif x["status"] == 0:
+            run.ok(rule, key, "proved inside its type for every caller-controlled input", loc)
         else:
-            run.ok(rule, key, "unresolved (operands of unknown or relational provenance): not reported", f.loc, nontrivial=False)
+            run.ok(rule, key, "unresolved (operands of unknown or relational provenance): not reported", loc, nontrivial=False)
     run.assumptions += [
         "A-ISO/A-DUR: arguments of the record types IsoDate, IsoTime, IsoDateTime, PlainTime, PlainMonthDay, Duration, DateDuration "
         "and TimeDuration satisfy their documented validity (the unchecked public constructors of these records are an escape "
